@@ -249,6 +249,18 @@ def _run_system(unit, rec):
                                       observed=jsonable_bool(a1), expected=bool(ans[idx]))
                 except Exception as e:  # noqa
                     _v(rec, "e", dict(sig, exc=type(e).__name__, arg="1-D target"), "in_hull on a 1-D target raised %r" % (e,), dict(relative=relative, membership="plain", target=idx, single=True))
+            # integer-typed targets (pixel counts): the answers are those of the same numbers as floats
+            rec.trans(2)
+            rec.path()
+            try:
+                Ti = np.unique(np.round(P[np.all(np.abs(P) < 1e6, axis=1)]).astype(np.int64), axis=0)[:40]
+                ai, af = np.asarray(est.in_hull(Ti, relative=relative)), np.asarray(est.in_hull(Ti.astype(float), relative=relative))
+                rec.outcome("int-typed/%s" % ("same" if np.array_equal(ai, af) else "differs"))
+                if not np.array_equal(ai, af):
+                    _v(rec, "e", dict(sig, exc="int-vs-float"), "integer-typed targets are answered differently from the same values as floats", dict(relative=relative, membership="plain", dtype="int"),
+                       observed=ai.tolist(), expected=af.tolist(), script=_script(spec, Ti, relative, False))
+            except Exception as e:  # noqa
+                _v(rec, "e", dict(sig, exc=type(e).__name__, arg="int targets"), "in_hull on integer-typed targets raised %r" % (e,), dict(relative=relative, membership="plain", dtype="int"))
             # in_gamut alias
             rec.trans()
             try:
